@@ -294,3 +294,39 @@ package db
 //@   ensures [false] !result ==> (exists d int := $i :: 0 <= d && d < len(key) && ALLEQ(key, r, d) && (d >= len(r) || ite(key[d].Desc, KEYCMP(key[d], r[d]) < 0, KEYCMP(key[d], r[d]) > 0)))
 //@   loop 1 invariant 0 <= $i && $i <= len(key) && ALLEQ(key, r, $i)
 //@   loop 1 decreases len(key) - $i
+
+// ---------------------------------------------------------------------------------------
+// Collations. BINARY is strings.Compare itself; RTRIM compares after removing trailing spaces
+// (0x20 only); NOCASE compares after folding the 26 ASCII upper-case letters (valid UTF-8 text).
+//
+//@ smt collate
+//@ (declare-fun str_cmp3 (Str Str) (_ BitVec 64))
+//@ (declare-fun rtrim_sp (Str) Str)
+//@ (declare-fun trim_right (Str Str) Str)
+//@ (declare-fun ascii_fold (Str) Str)
+//@ (declare-fun valid_utf8 (Str) Bool)
+//@ (declare-fun fold_fn (Int) Bool)
+//@ (declare-fun str_lower (Str) Str)
+//@ (declare-fun str_of_rune ((_ BitVec 32)) Str)
+//@ (define-fun is_space_set ((c Str)) Bool (and (= (st_len c) #x0000000000000001) (= (select (st_arr c) (st_off c)) #x20)))
+
+//@ axioms ascii_lower
+//@ (assert (forall ((r (_ BitVec 32))) (! (=> (and (bvsle #x00000041 r) (bvsle r #x0000005a)) (and (= (st_len (str_lower (str_of_rune r))) #x0000000000000001) (= (select (st_arr (str_lower (str_of_rune r))) (st_off (str_lower (str_of_rune r)))) (bvadd ((_ extract 7 0) r) #x20)))) :pattern ((str_lower (str_of_rune r))))))
+
+//@ func db.init$1
+//@   props C11 C03 C13
+//@   pure
+//@   ensures [rtrim] result == str_cmp3(rtrim_sp(a), rtrim_sp(b))
+
+//@ func db.init$2
+//@   props C11 C03 C13
+//@   pure
+//@   requires valid_utf8(a) && valid_utf8(b)
+//@   ensures [nocase] result == str_cmp3(ascii_fold(a), ascii_fold(b))
+
+//@ func db.init$2$1
+//@   props C11 C03 C13
+//@   pure
+//@   uses ascii_lower
+//@   opt establishes=fold_fn
+//@   ensures [fold] (r >= 65 && r <= 90 ==> result == r + 32) && (!(r >= 65 && r <= 90) ==> result == r)
